@@ -827,6 +827,11 @@ class Glyph(BaseObject):
         self.postNotification(notification="Glyph.ContoursChanged")
 
     def _decomposeComponent(self, component, layer, pointPen):
+        # the identifiers of shallow loaded contours are not registered
+        # yet, load them so that conflicting incoming identifiers are
+        # discarded instead of colliding when the contours get loaded.
+        if self._shallowLoadedContours is not None:
+            self._fullyLoadShallowLoadedContours()
         pointPen.skipConflictingIdentifiers = True
         component.drawPoints(pointPen)
         self.removeComponent(component)
